@@ -158,6 +158,7 @@ def run_case(spec):
     add_destinations(*dests)
     it = Interp(tape=tape, ser_hook=ser_hook)
     it.explicit_loggers = True
+    it.tb_without_exception = True
     try:
         it.run(prog)
     finally:
